@@ -30,6 +30,34 @@ use std::sync::Mutex;
 
 static LAST_PANIC: Mutex<String> = Mutex::new(String::new());
 
+/// allocator wrapper recording the largest single request: a size field of the font must not be
+/// able to drive an allocation out of proportion to the input ("exhausts memory through a size field")
+struct TrackingAlloc;
+static MAX_REQUEST: std::sync::atomic::AtomicUsize = std::sync::atomic::AtomicUsize::new(0);
+static ABORT_ON_HUGE: std::sync::atomic::AtomicBool = std::sync::atomic::AtomicBool::new(false);
+unsafe impl std::alloc::GlobalAlloc for TrackingAlloc {
+    unsafe fn alloc(&self, l: std::alloc::Layout) -> *mut u8 {
+        if l.size() > (1 << 30) && ABORT_ON_HUGE.load(std::sync::atomic::Ordering::Relaxed) {
+            std::process::abort(); // debugging aid: run under gdb with C01_ABORT_ON_HUGE=1 to see who asks
+        }
+        MAX_REQUEST.fetch_max(l.size(), std::sync::atomic::Ordering::Relaxed);
+        std::alloc::System.alloc(l)
+    }
+    unsafe fn dealloc(&self, p: *mut u8, l: std::alloc::Layout) {
+        std::alloc::System.dealloc(p, l)
+    }
+    unsafe fn realloc(&self, p: *mut u8, l: std::alloc::Layout, n: usize) -> *mut u8 {
+        MAX_REQUEST.fetch_max(n, std::sync::atomic::Ordering::Relaxed);
+        std::alloc::System.realloc(p, l, n)
+    }
+    unsafe fn alloc_zeroed(&self, l: std::alloc::Layout) -> *mut u8 {
+        MAX_REQUEST.fetch_max(l.size(), std::sync::atomic::Ordering::Relaxed);
+        std::alloc::System.alloc_zeroed(l)
+    }
+}
+#[global_allocator]
+static GLOBAL: TrackingAlloc = TrackingAlloc;
+
 /// CPU time of this thread in milliseconds (wall-clock would raise false alarms on a loaded machine)
 fn cpu_ms() -> u128 {
     let mut ts = libc::timespec { tv_sec: 0, tv_nsec: 0 };
@@ -235,13 +263,18 @@ fn guard<F: FnOnce()>(rep: &mut Report, entry: &str, size: usize, f: F) {
         return;
     }
     let t = cpu_ms();
+    MAX_REQUEST.store(0, std::sync::atomic::Ordering::Relaxed);
     let r = catch_unwind(AssertUnwindSafe(f));
     let ms = cpu_ms() - t;
+    let max_req = MAX_REQUEST.load(std::sync::atomic::Ordering::Relaxed);
     if r.is_err() {
         let loc = LAST_PANIC.lock().unwrap().clone();
         rep.bad = Some(format!("panic:{}:{}", entry, loc));
     } else if ms > 4000 + (size as u128) / 100 {
         rep.bad = Some(format!("slow:{}:{}", entry, ms));
+    } else if max_req > (256 << 20) + 64 * size {
+        // a single allocation request far beyond anything the input's size justifies
+        rep.bad = Some(format!("alloc:{}:{}MiB", entry, max_req >> 20));
     }
 }
 
@@ -410,6 +443,9 @@ fn main() {
         };
         *LAST_PANIC.lock().unwrap() = format!("{}:{}:{}", short_file(&file), enclosing_fn(&file, line), msg_class(&msg));
     }));
+    if std::env::var("C01_ABORT_ON_HUGE").is_ok() {
+        ABORT_ON_HUGE.store(true, std::sync::atomic::Ordering::Relaxed);
+    }
     let args: Vec<String> = std::env::args().collect();
     match args.get(1).map(|s| s.as_str()) {
         // child: run the listed inputs, append `input => result` lines to the out file, flush after each
